@@ -63,3 +63,22 @@ let see_h (line : string) : string =
      | Err -> "err" | Panic -> "panic")
 
 let () = Reg.register "SEE" see_h
+
+(* SEEREF (C18): as SEE, but "move=<value of the reference see_ref>" (Eval/SeeRef.v) for each legal
+   non-en-passant capture in generation order. The reference is total: it never panics. *)
+let seeref_h (line : string) : string =
+  match m_new_from_fen (bytes_of_string (String.trim line)) with
+  | Err -> "badfen" | Panic -> "panic"
+  | Ok p ->
+    (match m_legal_moves p with
+     | Ok l ->
+       let items = List.filter_map (fun m ->
+         let kind = (int_of_n m lsr 12) land 3 in
+         let dst = (int_of_n m lsr 6) land 63 in
+         let occupied = (match List.nth_opt p.board dst with Some x -> int_of_n x <> 0 | None -> false) in
+         if kind = 2 || not occupied then None
+         else Some (cls (move_to_string m) string_of_bytes ^ "=" ^ string_of_int (int_of_z (m_see_ref p m)))) l in
+       String.concat " " items
+     | Err -> "err" | Panic -> "panic")
+
+let () = Reg.register "SEEREF" seeref_h
